@@ -96,6 +96,41 @@ def strip_globals_and_nonlocals(
     return new_body, globals_and_nonlocals
 
 
+_SCOPE_NODES = (ast.FunctionDef, ast.AsyncFunctionDef, ast.ClassDef)
+
+
+def strip_declarations_deep(
+    body: List[ast.stmt],
+) -> Tuple[List[ast.stmt], List[ast.stmt]]:
+    """Removes the global / nonlocal statements at ANY depth of the blocks of `body` (nested function and
+    class definitions are scopes of their own and are left alone).  Returns the new body and the removed
+    statements in source order; a block left empty gets a `pass`.  The nested blocks are changed in place."""
+    declarations: List[ast.stmt] = []
+
+    def strip(stmts: List[ast.stmt]) -> List[ast.stmt]:
+        new_stmts: List[ast.stmt] = []
+        for stmt in stmts:
+            if isinstance(stmt, (ast.Global, ast.Nonlocal)):
+                declarations.append(stmt)
+                continue
+            if not isinstance(stmt, _SCOPE_NODES):
+                for name, field in ast.iter_fields(stmt):
+                    if not isinstance(field, list) or len(field) == 0:
+                        continue
+                    if isinstance(field[0], ast.stmt):
+                        setattr(stmt, name, strip(field))
+                    elif isinstance(field[0], (ast.ExceptHandler, ast.match_case)):
+                        for clause in field:
+                            clause.body = strip(clause.body)
+            new_stmts.append(stmt)
+        if len(stmts) > 0 and len(new_stmts) == 0:
+            new_stmts.append(ast.copy_location(ast.Pass(), stmts[0]))
+        return new_stmts
+
+    new_body = strip(body)
+    return new_body, declarations
+
+
 class StatementInserter(ast.NodeTransformer, EmitterMixin):
     def __init__(
         self,
@@ -120,6 +155,15 @@ class StatementInserter(ast.NodeTransformer, EmitterMixin):
         )
         self.mapper = mapper
         self.expr_rewriter = expr_rewriter
+        # the definitions around the statement being visited, innermost last: a global / nonlocal declaration
+        # anywhere in the blocks of a function belongs to the function
+        self._scope_stack: List[ast.AST] = []
+
+    @property
+    def _in_function_scope(self) -> bool:
+        return len(self._scope_stack) > 0 and isinstance(
+            self._scope_stack[-1], (ast.FunctionDef, ast.AsyncFunctionDef)
+        )
 
     def _handle_loop_body(
         self, node: Union[ast.For, ast.AsyncFor, ast.While], orig_body: List[ast.AST]
@@ -170,6 +214,9 @@ class StatementInserter(ast.NodeTransformer, EmitterMixin):
                     orelse = [
                         self.expr_rewriter.visit(node) for node in loop_copy_body
                     ]
+                if self._in_function_scope:
+                    # declarations nested in the copy: the function hoists its own (see _handle_function_body)
+                    orelse, _ = strip_declarations_deep(orelse)
                 ret = [
                     fast.If(
                         test=make_composite_condition(
@@ -200,6 +247,9 @@ class StatementInserter(ast.NodeTransformer, EmitterMixin):
                         self.emit(before_loop_evt, node, ret=fast.NameConstant(True))
                     )
                 ] + ret
+            if self._in_function_scope:
+                # hoisted to the top of the function, once, by _handle_function_body
+                globals_and_nonlocals = []
             return globals_and_nonlocals + ret
 
     def _handle_function_body(
@@ -310,6 +360,13 @@ class StatementInserter(ast.NodeTransformer, EmitterMixin):
                         )
                     )
                 ] + ret
+            # declarations inside nested blocks (`if c: global x`) would follow uses of the name in the copies
+            # placed before them: all declarations of the function are hoisted to its top, in source order
+            # (only now: the guard-exempt mapping above pairs the copy with the pristine tree node by node)
+            fundef_copy_body, nested_declarations = strip_declarations_deep(
+                fundef_copy_body
+            )
+            globals_and_nonlocals = globals_and_nonlocals + nested_declarations
             name_error_exc = f"{PYCCOLO_BUILTIN_PREFIX}_name_error"
             ret = [
                 fast.Try(
@@ -406,10 +463,19 @@ class StatementInserter(ast.NodeTransformer, EmitterMixin):
         self, node: ast.AST, field_name: str, inner_node: ast.stmt
     ) -> List[ast.stmt]:
         stmts_to_extend: List[ast.stmt] = []
-        if isinstance(
-            node,
-            (ast.FunctionDef, ast.AsyncFunctionDef, ast.For, ast.AsyncFor, ast.While),
-        ) and isinstance(inner_node, (ast.Global, ast.Nonlocal)):
+        if isinstance(inner_node, (ast.Global, ast.Nonlocal)) and (
+            self._in_function_scope
+            or isinstance(
+                node,
+                (
+                    ast.FunctionDef,
+                    ast.AsyncFunctionDef,
+                    ast.For,
+                    ast.AsyncFor,
+                    ast.While,
+                ),
+            )
+        ):
             return stmts_to_extend
         if self._is_docstring_stmt(node, field_name, inner_node):
             # _handle_function_body sets the docstring aside as exactly one statement: emit no events around it
@@ -460,6 +526,16 @@ class StatementInserter(ast.NodeTransformer, EmitterMixin):
     def generic_visit(self, node):
         if self.is_tracing_disabled_context(node):
             return node
+        is_scope = isinstance(node, _SCOPE_NODES)
+        if is_scope:
+            self._scope_stack.append(node)
+        try:
+            return self._generic_visit_impl(node)
+        finally:
+            if is_scope:
+                self._scope_stack.pop()
+
+    def _generic_visit_impl(self, node):
         for name, field in ast.iter_fields(node):
             if isinstance(field, ast.AST):
                 setattr(node, name, self.visit(field))
@@ -500,6 +576,15 @@ class StatementInserter(ast.NodeTransformer, EmitterMixin):
                     else:
                         new_field.append(inner_node)
                 new_field = module_docstring + future_imports + new_field
+                if (
+                    len(new_field) == 0
+                    and len(field) > 0
+                    and all(isinstance(stmt, (ast.Global, ast.Nonlocal)) for stmt in field)
+                    and not isinstance(node, (ast.FunctionDef, ast.AsyncFunctionDef))
+                ):
+                    # a block of nothing but declarations (which were set aside)
+                    with fast.location_of(field[0]):
+                        new_field = [fast.Pass()]
                 if name == "body":
                     if isinstance(node, ast.Module):
                         new_field = self._handle_module_body(node, new_field)
